@@ -8,11 +8,16 @@ C18 line protocol.  One line = one whole history.
   S <max_size> <chunk> <op> ...    SpooledStringIO(max_size) with READ_CHUNK_SIZE = chunk (`R` = the value in the source)
   M b|t <n> <hex>*n <mop> ...      MultiFileReader over n BytesIO (b) / StringIO (t) members
 
-ops:  w<hex> write | r<n> read(n) | ra read() | rl readline() | rL<n> readline(n) | rs readlines()
+ops:  w<hex> write | W<hex>,<hex>… writelines (W alone = empty batch) | r<n> read(n) | ra read() | rl readline() | rL<n> readline(n) | rs readlines()
       sk<n> seek(n) | sc<n> seek(n, SEEK_CUR) | se<n> seek(∓n, SEEK_END) | t tell() | g getvalue()
       l len(f) | n next(f) | it list(f) | dr [x for x in f] | ro f.rollover()
 mops: r<n> read(n) | ra read() | s seek(0)
 Payloads are hex (bytes, or the UTF-8 of a text), `-` = empty.
+Text is rendered through the model's own bytes (`realBytes (encode cs)`, = `String.toUTF8` by
+`C18.utf8_stored_bytes`), a text payload is decoded by the model's real-bytes decoder (`decodeR`) and accepted only
+if it decodes completely and the model re-encodes it to the very bytes received,
+and the lines of `readlines()` are cut at the byte level (`splitB`, = the encodings of the model's lines by
+`C18.readlines_bytes_level`).
 
 Output: one record per op joined by `;`:  <result>@<tell after the op>
   N unit | D<hex> bytes/text | L<hex>,<hex>… list | I<n> int | STOP | XUnicodeDecodeError (history ends)
@@ -21,10 +26,16 @@ namespace C18.Driver
 open BV C18
 
 def hexOfBytes (b : List Byte) : String := if b.isEmpty then "-" else bytesToHex b
-def hexOfChars (cs : List Char) : String := stringToHex (String.ofList cs)
+def hexOfChars (cs : List Char) : String := hexOfBytes (realBytes (encode cs))
 
 def bytesOfHex? (s : String) : Option (List Byte) := if s = "-" then some [] else hexToBytes? s
-def charsOfHex? (s : String) : Option (List Char) := (hexToString? s).map String.toList
+def charsOfHex? (s : String) : Option (List Char) :=
+  match bytesOfHex? s with
+  | some bs =>
+    match decodeR bs with
+    | (cs, [], false) => if realBytes (encode cs) = bs then some cs else none
+    | _ => none
+  | none => none
 
 def showOut {α : Type} (h : List α → String) : Out α → String
   | .unit => "N"
@@ -50,6 +61,11 @@ def parseOp {α : Type} (payload : String → Option (List α)) (tok : String) :
   else if tok.startsWith "sc" then (nat 2).map .seekCur
   else if tok.startsWith "se" then (nat 2).map .seekEnd
   else if tok.startsWith "w" then (payload (tok.drop 1).toString).map .write
+  else if tok = "W" then some (.writelines [])
+  else if tok.startsWith "W" then
+    ((splitOnChar (tok.drop 1).toString ',').foldr (fun t acc => match acc, payload t with
+      | some l, some d => some (d :: l)
+      | _, _ => none) (some [])).map .writelines
   else if tok.startsWith "r" then (nat 1).map .read
   else none
 
@@ -69,7 +85,11 @@ def runStr (s : SStr) : List (Op Char) → List String → List String
   | op :: ops, acc =>
     let r := s.step op
     if r.2.rd.bad then ("XUnicodeDecodeError" :: acc).reverse
-    else runStr r.2 ops (s!"{showOut hexOfChars r.1}@{r.2.tell}" :: acc)
+    else
+      let shown := match op, r.1 with
+        | .readlines, .lines xs => "L" ++ ",".intercalate ((splitB (realBytes (encode xs.flatten))).map hexOfBytes)
+        | _, o => showOut hexOfChars o
+      runStr r.2 ops (s!"{shown}@{r.2.tell}" :: acc)
 
 def parseMOp (tok : String) : Option MOp :=
   if tok = "ra" then some .readAll
